@@ -316,13 +316,13 @@ def k6_connect_cycle(P, E):
                                         val = b.blocks[tt[1][0]]["stmts"][tt[1][1]]["rv"].get("variant")
                                 if val == "None":
                                     clears.append(b.nid)
-    for root in ("operators::ref_count::RefCount::set_ref_count", "operators::replay::Replay::set_ref_count"):
+    for root in ("operators::ref_count::RefCount::new", "operators::replay::Replay::new"):
         rb = P.body(root)
         if rb is None:
             r.error("anchor missing: %s" % root)
             continue
         r.instance((root, "connect closure"), True, "on_subscribe clears anywhere in the crate: %s" % clears)
-        weak = any("Weak" in (u["ty"]["s"]) for b in P.descendants(rb) for u in b.upvars)
+        weak = any("Weak" in (u["ty"]["s"]) for b in _closures_in_view(P, rb) for u in b.upvars)
         if not clears and not weak:
             r.violate((root, "connect closure never released"),
                       "Subject.on_subscribe holds the connect closure, which owns a clone of the same Subject (and the "
